@@ -37,6 +37,10 @@ CONSTANTS NF,          \* number of faulty clients (they arrive in index order)
           LeakPop,     \* mutant switch (TLC must reject it): when the reply of a context create cannot be sent, the entry of
                        \* that id is popped and terminated - also when the create had been REFUSED as a duplicate, i.e. the
                        \* entry belongs to another, healthy client
+          CloseOnNone, \* server configuration close_on_none (False for spawn_server, True for run_server / --close_on_none):
+                       \* a COMPLETE header carrying None is a legitimate request to shut down - and only that is
+          CutIsNone,   \* mutant switch (TLC must reject it with CloseOnNone): a connection that ends inside the header is
+                       \* treated like a received None
           StepSend     \* FALSE: a client's writes up to its next read are one step (TCP buffers them; the reduction used
                        \* everywhere); TRUE: they arrive piecewise (unreduced; the driver checks that the outcomes are the same)
 
@@ -176,7 +180,11 @@ SHeader ==
                 [] plan[cur].req = "uctxworker" -> Cont      \* unknown context: `continue` without a reply (since 6c35f4a the socket is closed first)
                 [] OTHER                        -> spc' = "cpay" /\ UNCHANGED <<cur, inctx>>
       ELSE /\ dopen[cur] # "open"          \* otherwise blocked in recv()
-           /\ Fail("hdr")
+           /\ IF CutIsNone /\ "hdr" \in Fixes
+              THEN IF CloseOnNone
+                   THEN spc' = "crashed" /\ cur' = 0 /\ inctx' = FALSE /\ hOK' = FALSE     \* `break`: the server shuts down, finally reaps everybody
+                   ELSE Cont /\ hOK' = hOK                                               \* `continue`
+              ELSE Fail("hdr")
    /\ UNCHANGED <<plan, cpc, dsent, dopen, cst, copen, addrSent, infoSent, replySent, backlog, children, backend, ctxs, orphans>>
 
 SPayload ==          \* accept thread (guarded) or helper (`except ConnectionClosedError: return False`)
